@@ -281,4 +281,11 @@ def _param_is_sink(f, call, i):
     if cb and cb.get('params') and i < len(cb['params']):
         return norm_ty(cb['params'][i]['ty']) == '&mut dyn AmlSink'
     if (call.get('callee') or '') == 'Aml::to_aml_bytes' and i == 1: return True
+    # a method of a crate-local trait (unresolved at this call site): every implementation declares the parameter as a sink
+    tr = call.get('trait'); mname = call.get('callee_name')
+    if tr and mname:
+        impls = [d for (t_, _), ms in f.trait_impls.items() if t_ == tr for n_, d in ms.items() if n_ == mname]
+        dflt = f.trait_defaults.get(tr, {}).get(mname)
+        cands = [f.bodies[d] for d in impls + ([dflt] if dflt else []) if d in f.bodies]
+        if cands and all(c.get('params') and i < len(c['params']) and norm_ty(c['params'][i]['ty']) == '&mut dyn AmlSink' for c in cands): return True
     return False
